@@ -1,14 +1,14 @@
-\* the mechanism as the code has it: what it does guarantee (D2, D3, the queue bounds, the exact shape of what a
-\* late response re-creates, crashes only through the preempted response handler)
+\* mechanism as the code has it, larger bounds (3 queued messages), all topologies, no retrievals
 SPECIFICATION MCSpec
 CONSTANTS
   PullMax = 3
   PullingMax = 2
-  Ghosts <- MCGhosts
+  Ghosts <- OneGhost
   MsgBound = 3
-  QBound = 3
+  QBound = 2
   MCTopos <- AllTopos
   AsIs = TRUE
 CONSTRAINT Bound
+ACTION_CONSTRAINT NoRetrieve
 INVARIANTS TypeOK D1Pulling D2 D3 D4AsIs KeysAgree CrashOnlyWhenResumed
 CHECK_DEADLOCK FALSE
